@@ -14,19 +14,21 @@
      D24  d_udhi t = true \/ d_rp t = true                 (SMS-DELIVER bits 6, 7)
      D19  t_zneg (time stamp / absolute VP) = true          (negative zone)
      D22  ud_ends_in_zero (last user-data octet is 0x00)
-     D21  alphanumeric address                              (see PARTIAL below)
-   PARTIAL: the round-trip / value theorems are proved for NUMERIC TP addresses (1..20 digits,
-   any TON <> 5, any NPI).  Alphanumeric addresses (TON = 5) are in the quantifier of C19; the
-   model handles them (the harness compares model and code on alphanumeric addresses of 1..11
-   characters on every run and classifies the D21 / D16 failures), but the symbolic proof of
-   their round trip for the septet counts where it holds (1, 2, 3, 8, 9, 10, 11) is not done. *)
-From V Require Import Model.TpduRun Spec.Gsm0340 Gen.SmsOctets Proofs.SmsOctetTables Proofs.TpduRoundtrip.
+     D21  alphanumeric address whose useful semi-octet count (7n+3)/4 is odd (n = 4..7 of 1..11)
+   PARTIAL (what is missing): for ALPHANUMERIC addresses the theorems cover texts of the basic
+   character table without CR and without the escape code ([plain]); alphanumeric addresses that
+   contain CR or an extension-table character (ESC + code: [ ] { } \ ~ ^ | euro, form feed) are in
+   the quantifier of C19 but not in these theorems.  (The harness compares model and code on
+   alphanumeric addresses on every run.)  Numeric addresses: all of 1..20 digits, any TON <> 5, any NPI.
+   [addr_rt_ok a] is [True] for a numeric address and [plain text /\ even useful-semi-octet count]
+   for an alphanumeric one; [addr_dec_ok a] is [True] / [plain text /\ septet count mod 8 <> 7]. *)
+From V Require Import Model.TpduRun Spec.Gsm0340 Gen.SmsOctets Proofs.SmsOctetTables Proofs.TpduAlnum Proofs.TpduRoundtrip.
 Open Scope N_scope.
 
 (* ---- round trip, octet for octet *)
 Theorem C19_deliver_roundtrip_partial :
   forall t : s_deliver,
-    deliver_wf t -> is_numeric (d_oa t) ->
+    deliver_wf t -> addr_rt_ok (d_oa t) ->         (* not D21 *)
     d_udhi t = false -> d_rp t = false ->          (* not D24 *)
     t_zneg (d_scts t) = false ->                   (* not D19 *)
     ~ ud_ends_in_zero (d_ud t) ->                  (* not D22 *)
@@ -35,7 +37,7 @@ Proof. exact deliver_roundtrip. Qed.
 
 Theorem C19_submit_roundtrip_partial :
   forall t : s_submit,
-    submit_wf t -> is_numeric (s_da t) ->
+    submit_wf t -> addr_rt_ok (s_da t) ->          (* not D21 *)
     vp_known_ok (s_vp t) ->                        (* not D19: an absolute validity period has a non-negative zone *)
     ~ ud_ends_in_zero (s_ud t) ->                  (* not D22 *)
     sms_remarshal (layout_submit t) = Ok (layout_submit t).
@@ -44,12 +46,12 @@ Proof. exact submit_roundtrip. Qed.
 (* ---- the decoded structure carries the standard's values (holds also inside D22 and D24) *)
 Theorem C19_deliver_values_partial :
   forall t : s_deliver,
-    deliver_wf t -> is_numeric (d_oa t) -> t_zneg (d_scts t) = false ->
+    deliver_wf t -> addr_dec_ok (d_oa t) -> t_zneg (d_scts t) = false ->
     exists fl sc oa ts ud,
       sms_unmarshal (layout_deliver t) =
         Ok ("Deliver"%string, [TVAddr sc; TVFlags fl; TVAddr oa; TVByte (d_pid t); TVByte (d_dcs t); TVTime ts; TVBytes ud]) /\
       sc = {| a_npi := sa_npi (d_sc t); a_ton := sa_ton (d_sc t); a_no := ascii_digits (digits_of (d_sc t)) |} /\
-      oa = {| a_npi := sa_npi (d_oa t); a_ton := sa_ton (d_oa t); a_no := ascii_digits (digits_of (d_oa t)) |} /\
+      oa = {| a_npi := sa_npi (d_oa t); a_ton := sa_ton (d_oa t); a_no := addr_text_spec (d_oa t) |} /\
       time_civil ts = ((2000 + Z.of_N (t_yy (d_scts t)))%Z, Z.of_N (t_mo (d_scts t)), Z.of_N (t_dd (d_scts t)),
                        Z.of_N (t_hh (d_scts t)), Z.of_N (t_mi (d_scts t)), Z.of_N (t_ss (d_scts t)), time_offset_q (d_scts t)) /\
       ud = ud_octets (d_ud t) ++ repeat 0 (N.to_nat (udl (d_ud t)) - List.length (ud_octets (d_ud t))).
@@ -57,17 +59,29 @@ Proof. exact deliver_values. Qed.
 
 Theorem C19_submit_values_partial :
   forall t : s_submit,
-    submit_wf t -> is_numeric (s_da t) -> vp_known_ok (s_vp t) ->
+    submit_wf t -> addr_dec_ok (s_da t) -> vp_known_ok (s_vp t) ->
     exists fl da v ud,
       sms_unmarshal (layout_submit t) =
         Ok ("Submit"%string, [TVAddr addr0; TVFlags fl; TVByte (s_mr t); TVAddr da; TVByte (s_pid t); TVByte (s_dcs t); TVVP v; TVBytes ud]) /\
-      da = {| a_npi := sa_npi (s_da t); a_ton := sa_ton (s_da t); a_no := ascii_digits (digits_of (s_da t)) |} /\
+      da = {| a_npi := sa_npi (s_da t); a_ton := sa_ton (s_da t); a_no := addr_text_spec (s_da t) |} /\
       vpf_of v = vpf_bits (s_vp t) /\ vp_decoded_seconds v = vp_seconds (s_vp t) /\
       (forall ts, s_vp t = VpAbsolute ts -> exists x, v = VPAbs x /\
           time_civil x = ((2000 + Z.of_N (t_yy ts))%Z, Z.of_N (t_mo ts), Z.of_N (t_dd ts), Z.of_N (t_hh ts), Z.of_N (t_mi ts), Z.of_N (t_ss ts), time_offset_q ts)) /\
       (forall e, s_vp t = VpEnhanced e -> v = VPEnh (enh_seconds e) (enh_indicator e)) /\
       ud = ud_octets (s_ud t) ++ repeat 0 (N.to_nat (udl (s_ud t)) - List.length (ud_octets (s_ud t))).
 Proof. exact submit_values. Qed.
+
+(* the address text of an alphanumeric address is read in the 7-bit table of the running code; that
+   table is GSM 03.38 6.2.1 on every code except 0x09 (D16: U+00E7 for U+00C7) and the escape code *)
+Theorem C19_alphabet_table : forall s, s < 128 -> s <> 9 -> s <> ESC -> g7_rune s = gsm_char s.
+Proof. exact alphabet_table. Qed.
+Theorem C19_alphabet_09_refuted : g7_rune 9 = 231 /\ gsm_char 9 = 199.
+Proof. exact alphabet_09_refuted. Qed.
+(* bit-level unpack / pack of the code against the arithmetic packing of the standard, any length *)
+Theorem C19_unpack_pack7 : forall ss, Forall (fun s => s < 128) ss -> (List.length ss mod 8 <> 7)%nat -> ta_unpack (pack7 ss) = ss.
+Proof. exact unpack_pack7. Qed.
+Theorem C19_pack_is_pack7 : forall ss, Forall (fun s => s < 128) ss -> (List.length ss mod 8 <> 7)%nat -> ta_pack ss = pack7 ss.
+Proof. exact pack_is_pack7. Qed.
 
 (* time.Date is the identity on every real date of 2000..2099 (kernel sweep over 36,525 days) *)
 Theorem C19_calendar :
@@ -142,6 +156,10 @@ Example C19_example_deliver :
   sms_remarshal (layout_deliver w_deliver) = Ok (layout_deliver w_deliver) /\
   layout_deliver w_deliver = hx "07911326040000F0240A91009471008900004220923295858009C8329BFD06DDDF72".
 Proof. exact w_deliver_example. Qed.
+Example C19_example_alnum :
+  sms_remarshal (layout_submit w_alnum_ok) = Ok (layout_submit w_alnum_ok) /\
+  layout_submit w_alnum_ok = hx "0001070ED0D637396C7EBBCB00040401020304".
+Proof. exact w_alnum_example. Qed.
 Example C19_example_submit :
   sms_remarshal (layout_submit w_submit) = Ok (layout_submit w_submit) /\
   layout_submit w_submit = hx "00D5070A91009471008900049003010203".
